@@ -183,23 +183,192 @@ def oracle_agrees(real, exp, tol=2e-5):
 
 # ------------------------------------------------------------------ functional cases
 # a case = (fn name, real thunk, driver request, oracle value, tolerance, tag, json)
+#
+# Every case is BUILT FROM ITS JSON DESCRIPTION by `build_fn_case`: the generators below only assemble the description
+# (`js`: form, tensors with dtype and shape, python scalars as they are, parameters), so the case that the sweep runs is
+# the case that `replay()` rebuilds from a recorded violation — same real call, same definition oracle, same tolerance.
+# `expect: "err"` marks the hand-written rejected inputs (the definition does not apply; the code must raise).
 
 def tj(t):
     return {"data": t.tolist(), "shape": list(t.shape), "dtype": str(t.dtype).replace("torch.", "")}
 
 
+def is_tj(v):
+    return isinstance(v, dict) and {"data", "shape", "dtype"} <= set(v)
+
+
+def _tensor(d):
+    return torch.tensor(d["data"], dtype=getattr(torch, d["dtype"])).reshape(tuple(d["shape"]))
+
+
+def jw(w):
+    """a weight argument -> json: None | tensor description | the python scalar itself (int stays int, float stays float)"""
+    return None if w is None else (tj(w) if isinstance(w, torch.Tensor) else w)
+
+
+def wj(v):
+    return _tensor(v) if is_tj(v) else v
+
+
+def frows(t: torch.Tensor):
+    """tensor -> list of rows of Fractions (1-D: one row)"""
+    if t.ndim == 1:
+        return [[Fr(v) for v in t.tolist()]]
+    return [[Fr(v) for v in r] for r in t.tolist()]
+
+
+def _b_rank(js):
+    fn, k = js["fn"], js["k"]
+    x, y = _tensor(js["input"]), _tensor(js["target"])
+    if js.get("expect") == "err":
+        exp = "err"
+    else:
+        C = x.shape[1]
+        rows = [[Fr(v) for v in r] for r in x.tolist()]
+        tgt = y.tolist()
+        valid = all(0 <= t < C for t in tgt)
+        if fn == "hit_rate":
+            exp = "err" if (k is not None and k <= 0) else (o_hit(rows, tgt, k) if valid else None)
+        else:
+            exp = (o_rr(rows, tgt, k if (k is None or k > 0) else 0) if valid else "err")
+    req = f"fn {fn} input={enc_tensor(x)} target={enc_tensor(y)} k={enc_val(k)}"
+    return (fn, lambda: call_real(getattr(F, fn), x, y, k=k), req, exp, 0 if js.get("expect") else 2e-5, js["tag"], js)
+
+
+def _b_retrieval(js):
+    fn, k = js["fn"], js["k"]
+    x, y = _tensor(js["input"]), _tensor(js["target"])
+    if js.get("short"):          # hand-written shape errors: called with k only
+        req = f"fn {fn} input={enc_tensor(x)} target={enc_tensor(y)} k={enc_val(k)}"
+        return (fn, lambda: call_real(getattr(F, fn), x, y, k), req, js["expect"], 0, js["tag"], js)
+    limit, num_tasks = js["limit_k_to_size"], js["num_tasks"]
+    rows = [list(zip(a, [int(v) for v in b])) for a, b in zip(frows(x), frows(y))]
+    bad = (k is not None and k <= 0) or (limit and k is None)
+    if bad:
+        exp = "err"
+    elif fn == "retrieval_precision":
+        exp = [o_precision(r, k, limit) for r in rows]
+    else:
+        exp = [o_recall(r, k) for r in rows]
+    req = (f"fn {fn} input={enc_tensor(x)} target={enc_tensor(y)} k={enc_val(k)} limit_k_to_size={enc_val(limit)} num_tasks={num_tasks}")
+    return (fn, lambda: call_real(getattr(F, fn), x, y, k, limit, num_tasks), req, exp, 2e-5, js["tag"], js)
+
+
+def _wenc(w):
+    return "none" if w is None else (enc_tensor(w) if isinstance(w, torch.Tensor) else fq(w))
+
+
+def _b_ctr(js):
+    x, w, nt = _tensor(js["input"]), wj(js["weights"]), js["num_tasks"]
+    args = (x,) if w is None else (x, w)
+    if js.get("expect") == "err":
+        exp = "err"
+    else:
+        rows = frows(x)
+        if isinstance(w, torch.Tensor):
+            exp = [(Fr(0) if sum(wr) == 0 else Fr(sum(c * q for c, q in zip(cr, wr))) / sum(wr)) for cr, wr in zip(rows, frows(w))]
+        else:                    # one scalar weight for every sample (or none): the plain click rate
+            exp = [(Fr(0) if len(cr) == 0 else Fr(sum(cr), len(cr))) for cr in rows]
+    req = f"fn click_through_rate input={enc_tensor(x)} weights={_wenc(w)} num_tasks={nt}"
+    return ("click_through_rate", lambda: call_real(F.click_through_rate, *args, num_tasks=nt), req, exp,
+            0 if js.get("expect") else 2e-5, js["tag"], js)
+
+
+def _b_wc(js):
+    p, l, w = _tensor(js["input"]), _tensor(js["target"]), wj(js.get("weight"))
+    args = (p, l) if w is None else (p, l, w)
+    kw = {"num_tasks": js["num_tasks"]} if "num_tasks" in js else {}
+    if js.get("expect") == "err":
+        exp = "err"
+    else:
+        prow, lrow = frows(p), frows(l)
+        if isinstance(w, torch.Tensor):
+            exp = [xdiv(sum(a * b for a, b in zip(wr, pr)), sum(a * b for a, b in zip(wr, lr))) for pr, lr, wr in zip(prow, lrow, frows(w))]
+        else:
+            q = Fr(1) if w is None else Fr(w)
+            exp = [xdiv(q * sum(pr), q * sum(lr)) for pr, lr in zip(prow, lrow)]
+    req = f"fn weighted_calibration input={enc_tensor(p)} target={enc_tensor(l)}" + ("" if w is None else f" weight={_wenc(w)}") \
+        + (f" num_tasks={js['num_tasks']}" if "num_tasks" in js else "")
+    return ("weighted_calibration", lambda: call_real(F.weighted_calibration, *args, **kw), req, exp,
+            0 if js.get("expect") else 2e-5, js["tag"], js)
+
+
+def _b_collisions(js):
+    xi = _tensor(js["input"])
+    if js.get("expect") == "err":
+        exp = "err"
+    else:
+        ids = xi.tolist()
+        exp = [Fr(sum(1 for j, b in enumerate(ids) if b == a and j != i)) for i, a in enumerate(ids)]
+    return ("num_collisions", lambda: call_real(F.num_collisions, xi), f"fn num_collisions input={enc_tensor(xi)}", exp, 0, js["tag"], js)
+
+
+def _b_frequency(js):
+    xf, k = _tensor(js["input"]), js["k"]           # k: the python float handed to the real function
+    kk = Fr(k)
+    exp = "err" if kk < 0 else [Fr(1) if Fr(v) < kk else Fr(0) for v in xf.tolist()]
+    return ("frequency_at_k", lambda: call_real(F.frequency_at_k, xf, k), f"fn frequency_at_k input={enc_tensor(xf)} k={fq(kk)}", exp, 0, js["tag"], js)
+
+
+def _b_edit(js):
+    a, b, copy = js["prediction_tokens"], js["reference_tokens"], js["copy"]
+    sa, sb = [f"w{i}" for i in a], [f"w{i}" for i in b]
+    mod = {"wer": text_wer, "helper": text_helper}[copy]
+    d = lev(tuple(a), tuple(b))
+    return (f"_edit_distance[{copy}]", lambda: call_real(mod._edit_distance, sa, sb),
+            f"fn edit_distance prediction_tokens={enc_sent(a)} reference_tokens={enc_sent(b)} copy={copy}", [Fr(d)], 0, js["tag"], js)
+
+
+TEXT_ORACLE = {"word_error_rate": lambda i, t: o_wer(i, t), "word_information_preserved": lambda i, t: o_wip(i, t),
+               "word_information_lost": lambda i, t: o_wil(i, t)}
+
+
+def _b_text(js):
+    """inp/tgt: lists of token-id lists (as_str: single sentence passed as `str`)."""
+    fn, inp, tgt, as_str = js["fn"], js["input"], js["target"], js["as_str"]
+    if as_str:
+        ri, rt = words(inp[0]), words(tgt[0])
+        ei, et = enc_sent(inp[0]), enc_sent(tgt[0])
+    else:
+        ri, rt = [words(s) for s in inp], [words(s) for s in tgt]
+        ei, et = enc_sents(inp), enc_sents(tgt)
+    exp = "err" if len(inp) != len(tgt) else [TEXT_ORACLE[fn](inp, tgt)]
+    return (fn, lambda: call_real(getattr(F, fn), ri, rt), f"fn {fn} input={ei} target={et}", exp, 1e-9, js["tag"], js)
+
+
+def _b_text_mixed(js):
+    """a single sentence (str) against a list of sentences: WER / WIP reject, WIL wraps the string"""
+    fn, a, tgt = js["fn"], js["input"], js["target"]
+    exp = [o_wil([a], tgt)] if fn == "word_information_lost" else "err"
+    return (fn, lambda: call_real(getattr(F, fn), words(a), [words(s) for s in tgt]), f"fn {fn} input={enc_sent(a)} target={enc_sents(tgt)}",
+            exp, 1e-9, js["tag"], js)
+
+
+def _b_bleu(js):
+    cands, refss, N = js["input"], js["target"], js["n_gram"]
+    weights = None if js["weights"] is None else [Fr(x) for x in js["weights"]]
+    ri = [words(c) for c in cands]
+    rt = [[words(r) for r in refs] for refs in refss]
+    w = None if weights is None else ft(weights)
+    exp = o_bleu(cands, refss, N, weights)
+    exp = "err" if exp is None else [exp]
+    req = f"fn bleu_score input={enc_sents(cands)} target={enc_refs(refss)} n_gram={N} weights={enc_val(w)}"
+    return ("bleu_score", lambda: call_real(F.bleu_score, ri, rt, N, w), req, exp, 1e-4, js["tag"], js)
+
+
+FN_FORMS = {"rank": _b_rank, "retrieval": _b_retrieval, "ctr": _b_ctr, "wc": _b_wc, "collisions": _b_collisions, "frequency": _b_frequency,
+            "edit": _b_edit, "text": _b_text, "text-mixed": _b_text_mixed, "bleu": _b_bleu}
+
+
+def build_fn_case(js: dict):
+    """the case tuple of a functional case description (used by every generator and by replay)"""
+    return FN_FORMS[js["form"]](js)
+
+
 def case_rank(fn, rows, tgt, k, C=None):
     C = C if C is not None else (len(rows[0]) if rows else 3)
     x = ft([v for r in rows for v in r], shape=(len(rows), C))
-    y = it(tgt)
-    valid = all(0 <= t < C for t in tgt)
-    if fn == "hit_rate":
-        exp = "err" if (k is not None and k <= 0) else (o_hit(rows, tgt, k) if valid else None)
-    else:
-        exp = (o_rr(rows, tgt, k if (k is None or k > 0) else 0) if valid else "err")
-    req = f"fn {fn} input={enc_tensor(x)} target={enc_tensor(y)} k={enc_val(k)}"
-    return (fn, lambda: call_real(getattr(F, fn), x, y, k=k), req, exp, 2e-5, "rank",
-            {"fn": fn, "input": tj(x), "target": tj(y), "k": k})
+    return build_fn_case({"form": "rank", "tag": "rank", "fn": fn, "input": tj(x), "target": tj(it(tgt)), "k": k})
 
 
 def rank_cases(rng: Rng, tier):
@@ -226,8 +395,7 @@ def rank_cases(rng: Rng, tier):
     # shape errors
     x, y = ft([1, 0, 0, 1], shape=(2, 2)), it([0])
     for fn in ("hit_rate", "reciprocal_rank"):
-        yield (fn, (lambda fn=fn: call_real(getattr(F, fn), x, y, k=1)), f"fn {fn} input={enc_tensor(x)} target={enc_tensor(y)} k=1",
-               "err", 0, "rank-shape", {"fn": fn, "input": tj(x), "target": tj(y), "k": 1})
+        yield build_fn_case({"form": "rank", "tag": "rank-shape", "fn": fn, "input": tj(x), "target": tj(y), "k": 1, "expect": "err"})
 
 
 def distinct_scores(rng: Rng, n):
@@ -241,16 +409,8 @@ def case_retrieval(fn, rows, k, limit, num_tasks):
     ys = [l for r in rows for _, l in r]
     shape = (len(rows[0]),) if oneD else (len(rows), len(rows[0]))
     x, y = ft(xs, shape=shape), it(ys, shape=shape)
-    bad = (k is not None and k <= 0) or (limit and k is None)
-    if bad:
-        exp = "err"
-    elif fn == "retrieval_precision":
-        exp = [o_precision(r, k, limit) for r in rows]
-    else:
-        exp = [o_recall(r, k) for r in rows]
-    req = (f"fn {fn} input={enc_tensor(x)} target={enc_tensor(y)} k={enc_val(k)} limit_k_to_size={enc_val(limit)} num_tasks={num_tasks}")
-    return (fn, lambda: call_real(getattr(F, fn), x, y, k, limit, num_tasks), req, exp, 2e-5, "retrieval",
-            {"fn": fn, "input": tj(x), "target": tj(y), "k": k, "limit_k_to_size": limit, "num_tasks": num_tasks})
+    return build_fn_case({"form": "retrieval", "tag": "retrieval", "fn": fn, "input": tj(x), "target": tj(y), "k": k, "limit_k_to_size": limit,
+                          "num_tasks": num_tasks})
 
 
 def rel_labels(rng: Rng, n):
@@ -279,11 +439,25 @@ def retrieval_cases(rng: Rng, tier):
     # shape errors
     x, y = ft([1, 0, 0], shape=(3,)), it([0, 1])
     for fn in ("retrieval_precision", "retrieval_recall"):
-        yield (fn, (lambda fn=fn: call_real(getattr(F, fn), x, y, 1)), f"fn {fn} input={enc_tensor(x)} target={enc_tensor(y)} k=1",
-               "err", 0, "retrieval-shape", {"fn": fn, "input": tj(x), "target": tj(y), "k": 1})
+        yield build_fn_case({"form": "retrieval", "tag": "retrieval-shape", "fn": fn, "input": tj(x), "target": tj(y), "k": 1, "short": True, "expect": "err"})
         x2, y2 = ft([1, 0, 0, 1], shape=(2, 2)), it([0, 1, 1, 0], shape=(2, 2))
-        yield (fn, (lambda fn=fn, x2=x2, y2=y2: call_real(getattr(F, fn), x2, y2, 1)), f"fn {fn} input={enc_tensor(x2)} target={enc_tensor(y2)} k=1",
-               "err", 0, "retrieval-shape", {"fn": fn, "input": tj(x2), "target": tj(y2), "k": 1})
+        yield build_fn_case({"form": "retrieval", "tag": "retrieval-shape", "fn": fn, "input": tj(x2), "target": tj(y2), "k": 1, "short": True, "expect": "err"})
+
+
+def case_ctr(x, w, nt, tag="ctr", expect=None):
+    js = {"form": "ctr", "tag": tag, "fn": "click_through_rate", "input": tj(x), "weights": jw(w), "num_tasks": nt}
+    if expect:
+        js["expect"] = expect
+    return build_fn_case(js)
+
+
+def case_wc(p, l, w, nt=None, tag="wc", expect=None):
+    js = {"form": "wc", "tag": tag, "fn": "weighted_calibration", "input": tj(p), "target": tj(l), "weight": jw(w)}
+    if nt is not None:
+        js["num_tasks"] = nt
+    if expect:
+        js["expect"] = expect
+    return build_fn_case(js)
 
 
 def misc_cases(rng: Rng, tier):
@@ -296,72 +470,41 @@ def misc_cases(rng: Rng, tier):
         clicks = [rng.choice([0, 1]) for _ in range(nt * n)]
         x = it(clicks, shape=shape)
         mode = rng.choice(["none", "tensor", "scalar", "zero"])
-        rows = [clicks[r * n:(r + 1) * n] for r in range(nt)]
         if mode in ("tensor", "zero"):
             wv = [Fr(0)] * (nt * n) if mode == "zero" else rng.grid(nt * n, W4 + [Fr(0)])
             w = ft(wv, shape=shape)
-            wrows = [wv[r * n:(r + 1) * n] for r in range(nt)]
-            exp = [(Fr(0) if sum(wr) == 0 else Fr(sum(c * q for c, q in zip(cr, wr))) / sum(wr)) for cr, wr in zip(rows, wrows)]
-            args, wenc = (x, w), enc_tensor(w)
         elif mode == "scalar":
-            q = rng.choice(W4)
-            exp = [(Fr(0) if n == 0 else Fr(sum(cr), n)) for cr in rows]
-            args, wenc = (x, float(q)), fq(q)
+            w = float(rng.choice(W4))
         else:
-            exp = [(Fr(0) if n == 0 else Fr(sum(cr), n)) for cr in rows]
-            args, wenc = (x,), "none"
-        yield ("click_through_rate", (lambda args=args, nt=nt: call_real(F.click_through_rate, *args, num_tasks=nt)),
-               f"fn click_through_rate input={enc_tensor(x)} weights={wenc} num_tasks={nt}", exp, 2e-5, "ctr",
-               {"fn": "click_through_rate", "input": tj(x), "weights": wenc, "num_tasks": nt})
+            w = None
+        yield case_ctr(x, w, nt)
         # weighted calibration
         pv = rng.grid(nt * n, G4)
         lv = [rng.choice([0, 1]) for _ in range(nt * n)] if rng.random() < 0.85 else [0] * (nt * n)
         p, l = ft(pv, shape=shape), ft(lv, shape=shape)
-        prow = [pv[r * n:(r + 1) * n] for r in range(nt)]
-        lrow = [lv[r * n:(r + 1) * n] for r in range(nt)]
         if rng.random() < 0.5:
-            wv = rng.grid(nt * n, W4)
-            w = ft(wv, shape=shape)
-            wrow = [wv[r * n:(r + 1) * n] for r in range(nt)]
-            exp = [xdiv(sum(a * b for a, b in zip(wr, pr)), sum(a * b for a, b in zip(wr, lr))) for pr, lr, wr in zip(prow, lrow, wrow)]
-            args, wenc = (p, l, w), enc_tensor(w)
+            w = ft(rng.grid(nt * n, W4), shape=shape)
         else:
-            q = rng.choice(W4)
-            exp = [xdiv(q * sum(pr), q * sum(lr)) for pr, lr in zip(prow, lrow)]
-            args, wenc = (p, l, float(q)), fq(q)
-        yield ("weighted_calibration", (lambda args=args, nt=nt: call_real(F.weighted_calibration, *args, num_tasks=nt)),
-               f"fn weighted_calibration input={enc_tensor(p)} target={enc_tensor(l)} weight={wenc} num_tasks={nt}", exp, 2e-5, "wc",
-               {"fn": "weighted_calibration", "input": tj(p), "target": tj(l), "weight": wenc, "num_tasks": nt})
+            w = float(rng.choice(W4))
+        yield case_wc(p, l, w, nt)
         # collisions / frequency
         ids = [rng.randrange(4) for _ in range(n)]
-        xi = it(ids)
-        yield ("num_collisions", (lambda xi=xi: call_real(F.num_collisions, xi)), f"fn num_collisions input={enc_tensor(xi)}",
-               [Fr(sum(1 for j, b in enumerate(ids) if b == a and j != i)) for i, a in enumerate(ids)], 0, "collisions",
-               {"fn": "num_collisions", "input": tj(xi)})
+        yield build_fn_case({"form": "collisions", "tag": "collisions", "fn": "num_collisions", "input": tj(it(ids))})
         xs = rng.grid(n, [Fr(j, 2) for j in range(0, 9)])
         kk = rng.choice([Fr(0), Fr(1, 2), Fr(2), Fr(7, 2), Fr(-1)])
-        xf = ft(xs)
-        yield ("frequency_at_k", (lambda xf=xf, kk=kk: call_real(F.frequency_at_k, xf, float(kk))),
-               f"fn frequency_at_k input={enc_tensor(xf)} k={fq(kk)}", "err" if kk < 0 else [Fr(1) if v < kk else Fr(0) for v in xs], 0, "frequency",
-               {"fn": "frequency_at_k", "input": tj(xf), "k": str(kk)})
+        yield build_fn_case({"form": "frequency", "tag": "frequency", "fn": "frequency_at_k", "input": tj(ft(xs)), "k": float(kk)})
     # shape / parameter errors
     x2 = it([1, 0, 1, 1], shape=(2, 2))
-    yield ("click_through_rate", lambda: call_real(F.click_through_rate, x2), f"fn click_through_rate input={enc_tensor(x2)} weights=none num_tasks=1",
-           "err", 0, "ctr-shape", {"fn": "click_through_rate", "input": tj(x2), "num_tasks": 1})
+    yield case_ctr(x2, None, 1, "ctr-shape", "err")
     x1 = it([1, 0])
-    yield ("click_through_rate", lambda: call_real(F.click_through_rate, x1, num_tasks=2), f"fn click_through_rate input={enc_tensor(x1)} weights=none num_tasks=2",
-           "err", 0, "ctr-shape", {"fn": "click_through_rate", "input": tj(x1), "num_tasks": 2})
+    yield case_ctr(x1, None, 2, "ctr-shape", "err")
     w3 = ft([1, 1, 1])
-    yield ("click_through_rate", lambda: call_real(F.click_through_rate, x1, w3), f"fn click_through_rate input={enc_tensor(x1)} weights={enc_tensor(w3)} num_tasks=1",
-           "err", 0, "ctr-shape", {"fn": "click_through_rate", "input": tj(x1), "weights": tj(w3)})
+    yield case_ctr(x1, w3, 1, "ctr-shape", "err")
     p1, l1 = ft([Fr(1, 2), Fr(1, 4)]), ft([1, 0, 1])
-    yield ("weighted_calibration", lambda: call_real(F.weighted_calibration, p1, l1), f"fn weighted_calibration input={enc_tensor(p1)} target={enc_tensor(l1)}",
-           "err", 0, "wc-shape", {"fn": "weighted_calibration", "input": tj(p1), "target": tj(l1)})
+    yield case_wc(p1, l1, None, None, "wc-shape", "err")
     l2 = ft([1, 0])
-    yield ("weighted_calibration", lambda: call_real(F.weighted_calibration, p1, l2, w3), f"fn weighted_calibration input={enc_tensor(p1)} target={enc_tensor(l2)} weight={enc_tensor(w3)}",
-           "err", 0, "wc-shape", {"fn": "weighted_calibration", "input": tj(p1), "target": tj(l2), "weight": tj(w3)})
-    yield ("num_collisions", lambda: call_real(F.num_collisions, x2), f"fn num_collisions input={enc_tensor(x2)}", "err", 0, "collisions-shape",
-           {"fn": "num_collisions", "input": tj(x2)})
+    yield case_wc(p1, l2, w3, None, "wc-shape", "err")
+    yield build_fn_case({"form": "collisions", "tag": "collisions-shape", "fn": "num_collisions", "input": tj(x2), "expect": "err"})
 
 # ------------------------------------------------------------------ text cases
 
@@ -370,41 +513,17 @@ def sent(rng: Rng, V, lo=0, hi=6):
 
 
 def case_edit(a, b):
-    sa, sb = [f"w{i}" for i in a], [f"w{i}" for i in b]
-    d = lev(tuple(a), tuple(b))
-    out = []
-    for copy, mod in (("wer", text_wer), ("helper", text_helper)):
-        out.append((f"_edit_distance[{copy}]", (lambda mod=mod: call_real(mod._edit_distance, sa, sb)),
-                    f"fn edit_distance prediction_tokens={enc_sent(a)} reference_tokens={enc_sent(b)} copy={copy}", [Fr(d)], 0, "edit",
-                    {"fn": "_edit_distance", "copy": copy, "prediction_tokens": a, "reference_tokens": b}))
-    return out
+    return [build_fn_case({"form": "edit", "tag": "edit", "fn": "_edit_distance", "copy": copy, "prediction_tokens": list(a), "reference_tokens": list(b)})
+            for copy in ("wer", "helper")]
 
 
 def case_text(fn, inp, tgt, as_str=False):
-    """inp/tgt: lists of token-id lists (as_str: single sentence passed as `str`)."""
-    if as_str:
-        ri, rt = words(inp[0]), words(tgt[0])
-        ei, et = enc_sent(inp[0]), enc_sent(tgt[0])
-    else:
-        ri, rt = [words(s) for s in inp], [words(s) for s in tgt]
-        ei, et = enc_sents(inp), enc_sents(tgt)
-    if len(inp) != len(tgt):
-        exp = "err"
-    else:
-        exp = [{"word_error_rate": o_wer, "word_information_preserved": o_wip, "word_information_lost": o_wil}[fn](inp, tgt)]
-    return (fn, lambda: call_real(getattr(F, fn), ri, rt), f"fn {fn} input={ei} target={et}", exp, 1e-9, "text",
-            {"fn": fn, "input": inp, "target": tgt, "as_str": as_str})
+    return build_fn_case({"form": "text", "tag": "text", "fn": fn, "input": inp, "target": tgt, "as_str": as_str})
 
 
 def case_bleu(cands, refss, N, weights):
-    ri = [words(c) for c in cands]
-    rt = [[words(r) for r in refs] for refs in refss]
-    w = None if weights is None else ft(weights)
-    exp = o_bleu(cands, refss, N, weights)
-    exp = "err" if exp is None else [exp]
-    req = f"fn bleu_score input={enc_sents(cands)} target={enc_refs(refss)} n_gram={N} weights={enc_val(w)}"
-    return ("bleu_score", lambda: call_real(F.bleu_score, ri, rt, N, w), req, exp, 1e-4, "bleu",
-            {"fn": "bleu_score", "input": cands, "target": refss, "n_gram": N, "weights": None if weights is None else [str(x) for x in weights]})
+    return build_fn_case({"form": "bleu", "tag": "bleu", "fn": "bleu_score", "input": cands, "target": refss, "n_gram": N,
+                          "weights": None if weights is None else [str(x) for x in weights]})
 
 
 def text_cases(rng: Rng, tier):
@@ -425,9 +544,7 @@ def text_cases(rng: Rng, tier):
         yield case_text(rng.choice(["word_error_rate", "word_information_preserved", "word_information_lost"]), inp, tgt)
     # str vs list type mismatch (WER / WIP reject, WIL wraps)
     for fn in ("word_error_rate", "word_information_preserved", "word_information_lost"):
-        exp = [o_wil([[0, 1]], [[0, 2]])] if fn == "word_information_lost" else "err"
-        yield (fn, (lambda fn=fn: call_real(getattr(F, fn), words([0, 1]), [words([0, 2])])), f"fn {fn} input={enc_sent([0, 1])} target={enc_sents([[0, 2]])}",
-               exp, 1e-9, "text-type", {"fn": fn, "input": [0, 1], "target": [[0, 2]], "mixed": True})
+        yield build_fn_case({"form": "text-mixed", "tag": "text-type", "fn": fn, "input": [0, 1], "target": [[0, 2]]})
     for _ in range(3000 if tier == "thorough" else 500):
         V = rng.choice([2, 2, 50])
         N = rng.choice([1, 2, 3, 4])
@@ -465,6 +582,17 @@ def fn_cases(rng, tier):
     yield from text_cases(rng, tier)
 
 
+def fn_agrees(real, exp, tol):
+    """the verdict of the definition oracle on one functional case: True / False / None (the definition does not decide)"""
+    return oracle_agrees(real, exp, max(tol, 2e-5))
+
+
+def fn_violation(fn, tag, js, real, exp, extra=None):
+    return (f"C08|{fn}|{tag}|differs-from-definition",
+            f"{fn} returns {real[1] if real[0] == 'err' else [t.tolist() for t in real[1]]} where the definition gives {exp}",
+            {"kind": "fn", "case": js, "definition": str(exp), **(extra or {})})
+
+
 def check_fn_cases(rep: Report, cases, stream: str):
     cases = list(cases)
     outs = run_driver([c[2] for c in cases])
@@ -476,13 +604,11 @@ def check_fn_cases(rep: Report, cases, stream: str):
         if real[0] == "err":
             rep.count(f"err:{real[1]}")
         rep.case(nontrivial_key=(fn, req), sample={"request": req, "model": o} if rep.evaluations % 1500 == 0 else None)
-        agrees = oracle_agrees(real, exp, max(tol, 2e-5))
+        agrees = fn_agrees(real, exp, tol)
         msg = outcomes_agree(real, model, tol=tol or None, strict_kind=True)
         if agrees is False:
             nbad += 1
-            rep.violation(f"C08|{fn}|{tag}|differs-from-definition",
-                          f"{fn} returns {real[1] if real[0] == 'err' else [t.tolist() for t in real[1]]} where the definition gives {exp}",
-                          {"kind": "fn", "case": js, "request": req, "model": o, "definition": str(exp)})
+            rep.violation(*fn_violation(fn, tag, js, real, exp, {"request": req, "model": o}))
         elif msg is not None:
             nbad += 1
             rep.broke(f"correspondence:{stream}:{fn}", f"model and implementation disagree ({msg}); the oracle "
@@ -583,6 +709,44 @@ def gen_retrieval_prog(rng: Rng, name, fixed=None):
     return p, data
 
 
+def prog_json(p: Prog) -> dict:
+    """`Prog.describe()` (class, public configuration, ops with every batch's tensors incl. dtype and shape) with
+    tensor-valued configuration entries (BLEUScore weights) written out as tensor descriptions"""
+    d = p.describe()
+    d["cfg"] = {k: (tj(v) if isinstance(v, torch.Tensor) else v) for k, v in d["cfg"].items()}
+    return d
+
+
+def prog_from_json(d: dict) -> Prog:
+    d = dict(d)
+    d["cfg"] = {k: (_tensor(v) if is_tj(v) else v) for k, v in d["cfg"].items()}
+    return Prog.from_describe(d)
+
+
+def retrieval_data(p: Prog, root=0):
+    """[(score, label)] per query of everything that reached instance `root` (its own updates and the merged shards')"""
+    nq = p.cfg.get("num_queries", 1)
+    data = [[] for _ in range(nq)]
+    for b in p.flat.get(root, []):
+        xs, ls = b.args[0].tolist(), b.args[1].tolist()
+        qs = b.args[2].tolist() if len(b.args) > 2 else [0] * len(xs)
+        for x, l, q in zip(xs, ls, qs):
+            data[q].append((Fr(x), int(l)))
+    return data
+
+
+def retrieval_verdict(kind, p: Prog, real_out):
+    """the definition applied to ALL data that reached the root vs compute() of the root: (holds?, definition, data)"""
+    cfg = {k: v for k, v in p.cfg.items() if not k.startswith("_")}
+    data = retrieval_data(p)
+    exp = retrieval_definition(kind, cfg, data)
+    if exp[0] == "err":
+        ok = real_out[0] == "err"
+    else:
+        ok = real_out[0] == "ok" and oracle_agrees(("ok", real_out[1]), exp[1]) is True
+    return ok, exp, data
+
+
 def check_retrieval_classes(rep: Report, rng: Rng, n_progs: int):
     wit_recall = ({"k": 1}, [[[(Fr(3), 1, 0), (Fr(2), 1, 0), (Fr(1), 1, 0)]]])
     wit_prec = ({"k": 1, "empty_target_action": "pos"}, [[[(Fr(3), 0, 0), (Fr(2), 1, 0)]]])
@@ -594,22 +758,18 @@ def check_retrieval_classes(rep: Report, rng: Rng, n_progs: int):
     reals = [run_real(p) for _, _, p, _ in progs]
     models, lines = model_results([p for _, _, p, _ in progs])
     nbad = 0
-    for (name, kind, p, data), res, mod, line in zip(progs, reals, models, lines):
+    for (name, kind, p, _gen_data), res, mod, line in zip(progs, reals, models, lines):
         cfg = {k: v for k, v in p.cfg.items() if not k.startswith("_")}
         rep.count(f"class:{name}"); rep.count(f"k:{cfg.get('k')}"); rep.count(f"queries:{cfg.get('num_queries', 1)}")
         rep.count(f"policy:{cfg.get('empty_target_action', 'neg')}")
+        real_out = res[-1]
+        ok, exp, data = retrieval_verdict(kind, p, real_out)       # (the same function decides a replay)
         mech = retrieval_mechanism(kind, cfg, data)
         rep.count(f"relevant-outside-topk:{mech}")
         rep.case(nontrivial_key=(name, line), sample=p.describe() if rep.evaluations % 400 == 0 else None)
         rep.traces += 1
-        real_out = res[-1]
-        exp = retrieval_definition(kind, cfg, data)
-        if exp[0] == "err":
-            ok = real_out[0] == "err"
-        else:
-            ok = real_out[0] == "ok" and oracle_agrees(("ok", real_out[1]), exp[1]) is True
         d = compare_with_model(p, res, mod, 2e-5)
-        replay = {"kind": "prog", "program": p.describe(), "driver_line": line, "model": mod, "real": obs_json(real_out),
+        replay = {"kind": "prog", "check": "retrieval-class", "program": prog_json(p), "driver_line": line, "model": mod, "real": obs_json(real_out),
                   "definition_on_all_data": [str(v) for v in exp[1]] if exp[0] == "ok" else "raises"}
         if not ok:
             explained = mech and d is None
@@ -703,6 +863,67 @@ def simple_class_progs(rng: Rng, tier):
     return out
 
 
+def class_tol(name):
+    return 1e-4 if name == "BLEUScore" else 2e-5
+
+
+def class_definition(name, cfg, batches):
+    """the definition applied to ALL the batches that reached the observed instance, in the order they reached it (update
+    order of the root, then the merged shard's): list of expected values.  Computed from the batches themselves — the
+    tensors with their dtype, python scalars as given, the sentences — so a replayed program is judged exactly like a swept one."""
+    if name in ("HitRate", "ReciprocalRank"):
+        rows, tgt = [], []
+        for b in batches:
+            rows += [[Fr(v) for v in r] for r in b.args[0].tolist()]; tgt += b.args[1].tolist()
+        return (o_hit if name == "HitRate" else o_rr)(rows, tgt, cfg["k"])
+    if name == "ClickThroughRate":
+        nt = cfg.get("num_tasks", 1)
+        ct, wt = [Fr(0)] * nt, [Fr(0)] * nt
+        for b in batches:
+            cl = frows(b.args[0])
+            w = b.args[1] if len(b.args) > 1 else 1
+            wr = frows(w) if isinstance(w, torch.Tensor) else [[Fr(w)] * len(r) for r in cl]
+            for r in range(nt):
+                ct[r] += sum(c * q for c, q in zip(cl[r], wr[r])); wt[r] += sum(wr[r])
+        return [Fr(0) if w == 0 else c / w for c, w in zip(ct, wt)]
+    if name == "WeightedCalibration":
+        nt = cfg.get("num_tasks", 1)
+        ws, wl = [Fr(0)] * nt, [Fr(0)] * nt
+        for b in batches:
+            pr, lr = frows(b.args[0]), frows(b.args[1])
+            w = b.args[2] if len(b.args) > 2 else 1
+            wr = frows(w) if isinstance(w, torch.Tensor) else [[Fr(w)] * len(r) for r in pr]
+            for r in range(nt):
+                ws[r] += sum(a * q for a, q in zip(wr[r], pr[r])); wl[r] += sum(a * q for a, q in zip(wr[r], lr[r]))
+        return [] if all(x == 0 for x in wl) else [xdiv(a, b) for a, b in zip(ws, wl)]      # empty only when NO task has target weight
+    if name in ("WordErrorRate", "WordInformationPreserved", "WordInformationLost"):
+        inp = [s_.split() for b in batches for s_ in b.args[0]]
+        tgt = [s_.split() for b in batches for s_ in b.args[1]]
+        return [{"WordErrorRate": o_wer, "WordInformationPreserved": o_wip, "WordInformationLost": o_wil}[name](inp, tgt)]
+    if name == "BLEUScore":
+        N = cfg["n_gram"]
+        weights = None if cfg.get("weights") is None else [Fr(v) for v in cfg["weights"].tolist()]
+        cands = [c.split() for b in batches for c in b.args[0]]
+        refss = [[r.split() for r in refs] for b in batches for refs in b.args[1]]
+        if not cands:
+            return [0.0]
+        _, _, ms, _ = o_bleu_stats(cands, refss, N)
+        return [0.0] if sum(ms) == 0 else [o_bleu(cands, refss, N, weights)]
+    raise KeyError(name)
+
+
+def class_verdict(p: Prog, real_out, root=0):
+    """(holds?, definition on all data) for a program over one of the additive / cache-all classes"""
+    name = p.spec.name
+    exp = class_definition(name, p.cfg, p.flat.get(root, []))
+    ok = real_out[0] == "ok" and oracle_agrees(("ok", real_out[1]), exp, class_tol(name)) is True
+    return ok, exp
+
+
+def _same_expectation(a, b):
+    return len(a) == len(b) and all(close(float(x), y, 1e-12) for x, y in zip(a, b))
+
+
 def check_simple_classes(rep: Report, rng: Rng, tier):
     items = simple_class_progs(rng, tier)
     progs = []
@@ -726,16 +947,13 @@ def check_simple_classes(rep: Report, rng: Rng, tier):
         rep.case(nontrivial_key=(name, line) if bs else None)
         rep.traces += 1
         real_out = res[-1]
-        if name in ("HitRate", "ReciprocalRank") and any(op[0] == "m" for op in p.ops):
-            # recompute the expectation in merge order
-            order = [op[2] for op in p.ops if op[0] == "u"]
-            rows, tgt = [], []
-            for b in order:
-                rows += [[Fr(v) for v in r] for r in b.args[0].tolist()]; tgt += b.args[1].tolist()
-            exp = (o_hit if name == "HitRate" else o_rr)(rows, tgt, cfg["k"])
-        ok = real_out[0] == "ok" and oracle_agrees(("ok", real_out[1]), exp, max(tol, 2e-5)) is True
+        gen_exp = exp
+        ok, exp = class_verdict(p, real_out)          # the definition on all data in merge order (the same function decides a replay)
+        if not (name in ("HitRate", "ReciprocalRank") and any(op[0] == "m" for op in p.ops)) and not _same_expectation(gen_exp, exp):
+            # the generator's own bookkeeping of the expectation (python values) and the definition evaluated on the batches disagree
+            rep.broke(f"harness:class-definition:{name}", f"generator expects {gen_exp}, the definition on the batches gives {exp}", {"kind": "harness"})
         d = compare_with_model(p, res, mod, max(tol, 2e-5))
-        replay = {"kind": "prog", "program": p.describe(), "driver_line": line, "model": mod, "real": obs_json(real_out),
+        replay = {"kind": "prog", "check": "simple-class", "program": prog_json(p), "driver_line": line, "model": mod, "real": obs_json(real_out),
                   "definition_on_all_data": [str(v) for v in exp]}
         if not ok:
             rep.violation(f"C08|{name}|class-vs-definition|differs", f"{name}: compute() gives {obs_json(real_out)} but the definition on all data gives {replay['definition_on_all_data']}", replay)
@@ -807,64 +1025,66 @@ def search(rep: Report):
         if time.time() > deadline:
             return
         real = thunk()
-        if oracle_agrees(real, exp, max(tol, 2e-5)) is False:
-            rep.violation(f"C08|{fn}|{tag}|differs-from-definition", f"{fn} differs from its definition",
-                          {"kind": "fn", "case": js, "request": req, "definition": str(exp)})
+        if fn_agrees(real, exp, tol) is False:
+            rep.violation(*fn_violation(fn, tag, js, real, exp, {"request": req}))
             return
 
 
-def _tensor(d):
-    return torch.tensor(d["data"], dtype=getattr(torch, d["dtype"])).reshape(d["shape"])
+RETRIEVAL_KIND = {"RetrievalRecall": "recall", "RetrievalPrecision": "precision"}
+SIMPLE_CLASSES = ("HitRate", "ReciprocalRank", "ClickThroughRate", "WeightedCalibration", "WordErrorRate", "WordInformationPreserved",
+                  "WordInformationLost", "BLEUScore")
+
+
+def _nothing(reason):
+    raise ValueError(f"nothing to replay: {reason}")
 
 
 def replay(payload) -> bool:
-    r = payload["replay"]
-    if r.get("kind") == "prog":
-        pr = r["program"]
-        name, cfg = pr["class"], dict(pr["cfg"])
-        kind = "recall" if name == "RetrievalRecall" else "precision"
-        if name not in ("RetrievalRecall", "RetrievalPrecision"):
-            return True
-        p = Prog(BY_NAME[name], cfg)
-        nq = cfg.get("num_queries", 1)
-        data = [[] for _ in range(nq)]
-        for op in pr["ops"]:
-            if op[0] == "u":
-                args = tuple(_tensor(a) for a in op[2]["args"])
-                p.u(op[1], Batch(args))
-                qs = args[2].tolist() if len(args) > 2 else [0] * len(args[0])
-                for x, l, q in zip(args[0].tolist(), args[1].tolist(), qs):
-                    data[q].append((Fr(x), int(l)))
-            elif op[0] == "m":
-                p.m(op[1], op[2])
-            elif op[0] == "o":
-                p.o(op[1])
+    """True iff the property holds on the recorded input, decided by the oracle that raised the violation:
+    `kind: fn`   -> the case is rebuilt by `build_fn_case` from its description, the real function is called, `fn_agrees`;
+    `kind: prog` -> the program is rebuilt from its description, run on the real classes, `retrieval_verdict` / `class_verdict`."""
+    if not isinstance(payload, dict) or payload.get("kind", "failing-input") != "failing-input":
+        _nothing(f"payload kind {payload.get('kind') if isinstance(payload, dict) else type(payload).__name__!r} carries no concrete input")
+    r = payload.get("replay")
+    if not isinstance(r, dict) or not r:
+        _nothing("the payload carries no replay dict")
+    kind = r.get("kind")
+    if kind == "fn":
+        js = r.get("case")
+        if not isinstance(js, dict) or js.get("form") not in FN_FORMS:
+            _nothing(f"functional case without a known `form` (recorded before the replay format carried dtypes): {sorted(js) if isinstance(js, dict) else js!r}")
+        try:
+            fn, thunk, _req, exp, tol, _tag, _js = build_fn_case(js)
+        except (KeyError, TypeError, AttributeError) as e:
+            _nothing(f"the recorded functional case is incomplete ({e!r})")
+        if exp is None:
+            _nothing(f"the definition oracle does not cover this {fn} input")
+        real = thunk()
+        ok = fn_agrees(real, exp, tol)
+        if ok is False:
+            print(f"replay: {fn_violation(fn, js.get('tag'), js, real, exp)[1]}"[:600])
+        return ok is True
+    if kind == "prog":
+        pr = r.get("program")
+        if not isinstance(pr, dict) or "class" not in pr or "ops" not in pr:
+            _nothing("`prog` payload without a program description")
+        name = pr["class"]
+        if name not in RETRIEVAL_KIND and name not in SIMPLE_CLASSES:
+            _nothing(f"no definition oracle for class programs of {name}")
+        try:
+            p = prog_from_json(pr)
+        except (KeyError, TypeError, AttributeError) as e:
+            _nothing(f"the recorded program cannot be rebuilt ({e!r})")
+        if not p.ops or p.ops[-1][0] != "o" or p.ops[-1][1] != 0:
+            _nothing("the recorded program does not end with compute() of instance 0")
         out = run_real(p)[-1]
-        exp = retrieval_definition(kind, cfg, data)
-        if exp[0] == "err":
-            return out[0] == "err"
-        return out[0] == "ok" and oracle_agrees(("ok", out[1]), exp[1]) is True
-    if r.get("kind") == "fn":
-        c = r["case"]
-        fn = c["fn"]
-        if fn in ("hit_rate", "reciprocal_rank"):
-            x, y, k = _tensor(c["input"]), _tensor(c["target"]), c["k"]
-            rows = [[Fr(v) for v in row] for row in x.tolist()]
-            case = case_rank(fn, rows, y.tolist(), k, x.shape[1])
-            return oracle_agrees(case[1](), case[3]) is not False
-        if fn in ("retrieval_precision", "retrieval_recall"):
-            x, y = _tensor(c["input"]), _tensor(c["target"])
-            xs = x.reshape(-1, x.shape[-1]).tolist(); ys = y.reshape(-1, y.shape[-1]).tolist()
-            rows = [list(zip([Fr(v) for v in a], [int(v) for v in b])) for a, b in zip(xs, ys)]
-            case = case_retrieval(fn, rows, c["k"], c.get("limit_k_to_size", False), c.get("num_tasks", 1))
-            return oracle_agrees(case[1](), case[3]) is not False
-        if fn in ("word_error_rate", "word_information_preserved", "word_information_lost") and not c.get("mixed"):
-            case = case_text(fn, c["input"], c["target"], c.get("as_str", False))
-            return oracle_agrees(case[1](), case[3], 1e-9) is not False
-        if fn == "bleu_score":
-            w = None if c["weights"] is None else [Fr(x) for x in c["weights"]]
-            case = case_bleu(c["input"], c["target"], c["n_gram"], w)
-            return oracle_agrees(case[1](), case[3], 1e-4) is not False
-        if fn == "_edit_distance":
-            return all(oracle_agrees(cs[1](), cs[3]) is not False for cs in case_edit(c["prediction_tokens"], c["reference_tokens"]))
-    return True
+        if name in RETRIEVAL_KIND:
+            ok, exp, _data = retrieval_verdict(RETRIEVAL_KIND[name], p, out)
+            exp_s = [str(v) for v in exp[1]] if exp[0] == "ok" else "raises"
+        else:
+            ok, exp = class_verdict(p, out)
+            exp_s = [str(v) for v in exp]
+        if not ok:
+            print(f"replay: {name}: compute() gives {obs_json(out)} but the definition on all data gives {exp_s}"[:600])
+        return bool(ok)
+    _nothing(f"replay kind {kind!r} is not a functional case or a class program")
